@@ -110,7 +110,27 @@ def run(prog, rep):
     ptrsz = 8
     if oks:
         cnt = cv(size_st[0]["r"])
-        oks = any(cv(c["args"][0]) == cnt * ptrsz for c in al) and any(c.get("callee") == "p_malloc0" and cv(c["args"][0]) == cnt * ptrsz for c in al)
+        size_pos = [(b.id, i) for (b, i, n) in nw.nodes() if n["k"] == "asg" and n.get("loc") == size_st[0].get("loc")]
+
+        def bytes_of(e, at):
+            """value of an allocation size: constants, products and sums, and table->size read after the single store of it"""
+            e = strip_casts(e)
+            if e is None:
+                return None
+            if cv(e) is not None:
+                return cv(e)
+            if e["k"] == "bin" and e["op"] in ("*", "+"):
+                l, r = bytes_of(e["l"], at), bytes_of(e["r"], at)
+                return None if (l is None or r is None) else (l * r if e["op"] == "*" else l + r)
+            if e["k"] == "member" and e["field"] == "size" and e.get("rec") == "PHashTable_":
+                return cnt if (size_pos and nw.pos_dominates(size_pos[0], at)) else None
+            if e["k"] == "ref" and e.get("decl") == "local":
+                o = nw.origins(e)
+                vs = set(bytes_of(x, at) for x in o) if o else {None}
+                return vs.pop() if len(vs) == 1 else None
+            return None
+        alpos = dict((id(c), (b.id, i)) for (b, i, c) in nw.calls())
+        oks = any(c.get("callee") == "p_malloc0" and bytes_of(c["args"][0], alpos[id(c)]) == cnt * ptrsz for c in al)
     rep.ob("C15.2", nw, "size", oks, "size is written once (%s) and the zero-filled bucket array has exactly that many slots" % (cv(size_st[0]["r"]) if size_st else "?") if oks else
            "table->size and the allocated bucket count disagree (or size is written in several places)", nw.loc[0])
     nsub = 0
